@@ -39,11 +39,20 @@ class ListSpacing(str, Enum):
     tight = "tight"
 
 
-def _normalize_title_quotes(title: str) -> str:
+def _normalize_title_quotes(title: str, raw: bool = False) -> str:
     """
-    Normalize title quotes.
+    Normalize title quotes to double quotes.
+
+    Inline links and images carry the title text itself. Link reference definitions (`raw`)
+    carry the title as written, with its delimiters (`"..."`, `'...'` or `(...)`) and backslash
+    escapes, so only the delimiters are exchanged there.
     """
-    escaped = title.strip('"').replace('"', '\\"')
+    if raw:
+        if len(title) >= 2 and (title[0], title[-1]) in (("'", "'"), ("(", ")")):
+            inner = re.sub(r'(?<!\\)"', r'\\"', title[1:-1])
+            return f'"{inner}"'
+        return title
+    escaped = title.replace('"', '\\"')
     return f'"{escaped}"'
 
 
@@ -534,7 +543,7 @@ class MarkdownNormalizer(Renderer):
         """
         link_text = element.dest
         if element.title:
-            link_text += f" {_normalize_title_quotes(element.title)}"
+            link_text += f" {_normalize_title_quotes(element.title, raw=True)}"
         result = f"{self._prefix}[{element.label}]: {link_text}\n"
         self._prefix = self._second_prefix
         self._suppress_item_break = True
